@@ -121,6 +121,9 @@ def make_persona(year, seed, archetype=None):
         over[f'w-2:{n}.box_17'] = f'{round(amount * 0.04, 2)}'
         over[f'w-2:{n}.belongs_to'] = who
         over[f'w-2:{n}.box_15'] = 'NC'
+        if rng.chance(0.4):
+            over[f'w-2:{n}.box_12a_code'] = rng.pick(['D', 'DD', 'AA', 'W'])
+            over[f'w-2:{n}.box_12a_value'] = str(rng.pick([500, 1500.5]))
 
     if arch == 'minimal':
         n_w2 = 1
@@ -345,7 +348,7 @@ class ShippedRun(simrun.RealRun):
 
 
 def execute(pdict, file_names=(), sched=(None, 0), prompt=True, refuse_at=None, layout=None, budget=40000,
-            cpu_s=60.0, requested=None, overrides=None):
+            cpu_s=30.0, requested=None, overrides=None):
     """One session of the simulated taxpayer against the real forms of pdict['year'].
     file_names: inputs pre-supplied in the file (texts from the persona)."""
     persona = Persona(pdict)
@@ -371,6 +374,7 @@ def execute(pdict, file_names=(), sched=(None, 0), prompt=True, refuse_at=None, 
     pf = seams.solver_prompt(rec, answer) if prompt else None
     req = list(requested if requested is not None else pdict['forms'])
     run.requested, run.field_names = req, []
+    run.prompting = bool(prompt)
     with seams.installed(rec), core.cpu_alarm(cpu_s):
         s = hb_solver.Solver(store, hb_forms.available_forms[year], prompt=pf)
         try:
